@@ -146,6 +146,11 @@ Inductive c13_case :=
 (* the request-level dump setters in the order the caller made them (request buffer = writer 2)
    and the options the real dumper turned out to work with (None: nothing was dumped at request
    level because no dumper existed) *)
+(* a retried request: the exchanges before and after the (last) reset of the request's own dump
+   buffer (writer 2 of dumper 1): the buffer holds only what was dumped after the reset, every
+   other writer holds everything *)
+| ExchCaseR (client request : option options) (before after : list exch)
+            (obs : list (nat * writer * bytes))
 | ReqOpsCase (ops : list rop) (effective : option options)
 | FlushCase (client request : option options) (header_block : bytes) (chunks : list bytes)
             (progress : bool).
@@ -169,6 +174,19 @@ Definition c13_check (c : c13_case) : bool :=
   | LineCase dumping n input max obs dumped =>
       let rs := read_lines (read_line dumping) n max input in
       list_eqb rl_obs_eqb rs obs && bytes_eqb (concat (map rl_dumped rs)) dumped
+  | ExchCaseR client request before after obs =>
+      let ds := get_dumpers (option_map (client_set_options None) client)
+                            (option_map (request_set_options w_reqbuf) request) in
+      let '(ok1, l1) := exchs_log ds before in
+      let '(ok2, l2) := exchs_log ds after in
+      ok1 && ok2 &&
+      forallb (fun d => forallb (fun w =>
+                 let predicted :=
+                   if Nat.eqb (fst d) 1 && N.eqb w w_reqbuf
+                   then run_bops [BWrite (content 1 w l1); BReset; BWrite (content 1 w l2)]
+                   else content (fst d) w (l1 ++ l2) in
+                 bytes_eqb predicted (lookup_obs (fst d) w obs))
+                                (universe ds obs)) ds
   | ReqOpsCase ops effective =>
       match run_rops w_reqbuf ops, effective with
       | Some a, Some b => options_eqb a (request_set_options w_reqbuf b)
